@@ -118,18 +118,38 @@ def trim(b):
     return b
 
 
-def concretise(b, rnd):
+class Deck:
+    """Deals the concrete realisations round-robin (shuffled), so that every defect class x credential order is replayed
+    as soon as there are enough defective submissions, whatever the seed."""
+    def __init__(self, rnd):
+        self.rnd, self.cards = rnd, {}
+
+    def deal(self, name, items):
+        d = self.cards.get(name)
+        if not d:
+            d = self.cards[name] = list(items)
+            self.rnd.shuffle(d)
+        return d.pop()
+
+
+def concretise(b, rnd, deck=None):
+    deck = deck or Deck(rnd)
     out = []
     for s in b:
         s = dict(s)
         if s["a"] == "Submit":
             s["c"] = ""
-            if s["d"] == "bad":
-                s["c"] = rnd.choice(REG_BAD if s["kind"] == "reg" else RET_BAD)
-            elif s["d"] == "ret-unknown":
-                s["c"] = rnd.choice(["", "ret-nojti"])
             # the order of the credentials is the environment's choice and must not matter to the verdict
-            s["o"] = rnd.choice(ORDERS) if s["kind"] == "reg" else "mf"
+            s["o"] = "mf"
+            if s["kind"] == "reg":
+                if s["d"] == "bad":
+                    s["c"], s["o"] = deck.deal("reg-bad", [(c, o) for c in REG_BAD for o in ORDERS])
+                else:
+                    s["o"] = deck.deal("order-" + s["d"], ORDERS)
+            elif s["d"] == "bad":
+                s["c"] = deck.deal("ret-bad", RET_BAD)
+            elif s["d"] == "ret-unknown":
+                s["c"] = deck.deal("ret-unknown", ["", "ret-nojti"])
         out.append(s)
     return out
 
@@ -277,12 +297,13 @@ def run(prop, tier, seed, replay=None):
     gens, n_wit, n_buckets, chosen, sim = generate(quick, seed, rnd, n_exh, n_val, n_sim)
     phases["generate"] = round(time.time() - t0, 1)
     scripts = {}
+    deck = Deck(rnd)
     for i, (fam, b) in enumerate(chosen):
         sid = "%s%05d" % ("w" if fam == "main" else "v", i)
-        scripts[sid] = dict(id=sid, steps=concretise(trim(b), rnd))
+        scripts[sid] = dict(id=sid, steps=concretise(trim(b), rnd, deck))
     for i, b in enumerate(sim):
         sid = "s%05d" % i
-        scripts[sid] = dict(id=sid, steps=concretise(trim(b), rnd))
+        scripts[sid] = dict(id=sid, steps=concretise(trim(b), rnd, deck))
     order = sorted(scripts.values(), key=lambda s: (0 if any(x["a"] == "Tick" for x in s["steps"]) else 1, s["id"]))
 
     # 2. in parallel: TLC proves the prescriptive design; the behaviours run on the real code
